@@ -7,6 +7,9 @@ use std::{collections::VecDeque, fmt, io::Write};
 
 use super::{ChannelWaiter, CloseResult, ReceiveResult, SendResult};
 
+/// The most slots a buffered queue allocates up front
+const INITIAL_BUFFER: usize = 1024;
+
 #[derive(PartialEq, Clone, Debug)]
 enum ChannelQueueState {
   Ready,
@@ -56,7 +59,9 @@ impl ChannelQueue {
     assert!(capacity > 0, "ChannelQueue must be positive");
 
     Self {
-      queue: VecDeque::with_capacity(capacity),
+      // the bound is kept in `capacity`, the buffer itself grows on demand so that a
+      // huge bound does not ask the allocator for memory that is never used
+      queue: VecDeque::with_capacity(capacity.min(INITIAL_BUFFER)),
       capacity,
       state: ChannelQueueState::Ready,
       kind: ChannelQueueKind::Buffered,
